@@ -290,6 +290,11 @@ def set_history(inp, rng, kind='recurate', corrupt=None):
     o = inp['opts']
     if not inp['target'].startswith('fresh') or (inp['label'] and not LABEL_HISTORY) or o.get('big_top', 'no') != 'no' or o.get('sparse'):
         return None
+    if 'temp_wh.dat' in (inp.get('dat_names') or []):
+        # the earlier export deletes temp_wh.dat (allowed by the statement); when that file is the raw data itself the judged
+        # export has no raw data and writes fewer files than the earlier one, so 'equal to an export into a fresh directory'
+        # is not what the statement promises for the leftovers (found by the thorough tier: a leftover, emptied subset file)
+        return None
     files = inp['ds']['files']
     st = [int(x) for x in files['spike_templates.npy']['data']]
     cur = files.get('spike_clusters.npy')
